@@ -172,6 +172,8 @@ def solo_conformance(op, pr, pre_tree, rep):
     toks = []
     ancestors = {"/".join(p.split("/")[:k]) for k in range(1, len(p.split("/")))}
     for call in pr.trace:
+        if call.startswith("opendir "):
+            continue                      # a directory opened for listing (List's walk): a scheduling point, not a step of Put / Delete / Get
         if call.startswith("stat ") and call[5:] in ancestors:
             continue                      # create_dir_all probing an existing parent directory: read-only, not a step of the model
         if call == f"open {tmp} CTW":
@@ -456,7 +458,14 @@ def run(pid, tier, seed, rundir, model_run):
             qs.append("serve {} {} {} {}".format(hexs(stream), ",".join(f"{hexs(b)}={t}" for b, t in table.items()) or "-",
                                                 ",".join(f"{hexs(c_)}={h_}" for c_, h_ in ht.items()) or "-", H.tree_tok_bytes(tree)))
         observed = {k: v["reply"] for k, v in done}
-        case_info.append({"first": len(all_queries), "n": len(qs), "perms": cands, "observed": observed, "final": H.tree_tok_hash(final), "rep": rep, "leftovers": leftovers,
+        versions = {p_: {ht[c_]} for p_, c_ in tree.items()}
+        for cl in clients:
+            for op in cl:
+                if op["kind"] == "put" and op.get("variant") == "ok":
+                    versions.setdefault(op["path"], {None}).add(ht[op["content"]])
+                elif op["kind"] == "delete":
+                    versions.setdefault(op["path"], {None}).add(None)
+        case_info.append({"first": len(all_queries), "n": len(qs), "perms": cands, "observed": observed, "versions": versions, "final": H.tree_tok_hash(final), "rep": rep, "leftovers": leftovers,
                           "acked": [(k, clients[k[0]][k[1]]) for k, v in done if v["reply"] and v["reply"].startswith("put:1:")]})
         all_queries.extend(qs)
 
@@ -609,6 +618,18 @@ def run(pid, tier, seed, rundir, model_run):
                 bl = H.frame(H.req_list())
                 clients = [[{"kind": "list", "path": "", "pieces": [bl], "bytes": bl, "desc": "list"}], [put_at("f", CONTENTS[1]), put_at("g", CONTENTS[5])]]
                 nclients = 2
+            list_vs_delete = (gi == 3 and pid == "C03")
+            if list_vs_delete:
+                # (seed C03-O) the Delete empties `d`; whatever the hub then does with the empty directory, a List that is under way
+                # answers with the files that were there all along
+                tree = {"keep.txt": CONTENTS[0], "d/only.txt": CONTENTS[2], "a/b/deep.txt": CONTENTS[5]}
+                def del_at(p_):
+                    ch_ = bytes.fromhex(blake3_hex([tree[p_]])[0])
+                    b_ = H.frame(H.req_delete(p_, ch_))
+                    return {"kind": "delete", "path": p_, "pieces": [b_], "exp": ch_, "bytes": b_, "desc": f"delete {p_} exp=cur"}
+                bl = H.frame(H.req_list())
+                clients = [[{"kind": "list", "path": "", "pieces": [bl], "bytes": bl, "desc": "list"}], [del_at("d/only.txt"), del_at("a/b/deep.txt")]]
+                nclients = 2
             third_party = (gi == 2)
             if third_party:
                 # two writers with the same (current) expectation on one path and a third session that merely starts and
@@ -663,7 +684,7 @@ def run(pid, tier, seed, rundir, model_run):
                                 one.append([(a, k)] + [(c, 99) for c in order] + [(a, 99)])
                     if tier != "thorough" and len(one) > nsched * 2:
                         one = [one[i] for i in sorted({rng.below(len(one)) for _ in range(nsched * 2)})]
-                    if list_vs_commits or list_then_get:
+                    if list_vs_commits or list_then_get or list_vs_delete:
                         for k1 in range(1, max(2, lens.get(0, 10)) + 1):
                             one.append([(0, k1), (1, 99), (0, 99)])
                     if third_party:
@@ -800,6 +821,17 @@ def run(pid, tier, seed, rundir, model_run):
                         break
             nlin += 1
             if ok_wo_list:
+                impossible = []
+                for k in list_keys:
+                    body = info["observed"][k][4:]
+                    listed = dict(x.split("=") for x in body.split(";")) if body != "-" else {}
+                    for p_, vs in info.get("versions", {}).items():
+                        if listed.get(hexs(p_)) not in vs:
+                            impossible.append((p_, listed.get(hexs(p_))))
+                if impossible:
+                    res["violations"].append(("list-reply-drops-or-invents-a-file", f"a List reply shows, for {impossible[0][0]!r}, {'no entry' if impossible[0][1] is None else 'a hash'} that the file never had at any moment of the run (not a mix of versions: the file was there all along, or never held these bytes)",
+                                              dict(info["rep"], observed={f"{k[0]}.{k[1]}": v for k, v in info["observed"].items()}, final=info["final"])))
+                    continue
                 res["violations"].append(("list-reply-not-a-snapshot", "a List reply shows a combination of file versions that the hub never held at any single moment (everything else is linearizable)",
                                           dict(info["rep"], observed={f"{k[0]}.{k[1]}": v for k, v in info["observed"].items()}, final=info["final"])))
                 continue
